@@ -81,6 +81,9 @@ func c01SignPSS(rng io.Reader, key *rsa.PrivateKey, payload []byte, h crypto.Has
 	case crypto.SHA384:
 		d := sha512.Sum384(payload)
 		digest = d[:]
+	case crypto.SHA512:
+		d := sha512.Sum512(payload)
+		digest = d[:]
 	default:
 		panic("hash")
 	}
